@@ -31,7 +31,7 @@ def kinds_for(sys_):
         return [(1, 0), (3, 0), (4, 1), (4, 3), (5, 0)]
     if sys_ == "write":
         return WRITE_KINDS
-    return SEEK_KINDS
+    return SEEK_KINDS   # lseek, ftruncate
 
 
 # ------------------------------------------------------------ library scenarios
@@ -142,13 +142,15 @@ def tool_cmd(sc, tools):
         return [tools["unzck"], "--dict", "arch.zck"], "input=arch.zck;output=arch.zdict", {}
     if k == "t-read_header-f":
         return [tools["zck_read_header"], "-f", "arch.zck"], "input=arch.zck", {}
+    if k == "t-zckdl":
+        return [tools["zckdl"], "-s", "A.zck", sc["url"]], "target=tgt.zck;source=A.zck", {"no_proxy": "*", "NO_PROXY": "*"}
     raise ValueError(k)
 
 
 CLASS_PATHS = {"t-zck": {"input": "in.dat", "output": "out.zck"}, "t-unzck": {"input": "arch.zck", "output": "arch"},
                "t-unzck-c": {"input": "arch.zck", "stdout": "stdout.bin"}, "t-unzck-dict": {"input": "arch.zck", "output": "arch.zdict"},
-               "t-read_header-f": {"input": "arch.zck"}}
-ST_TRACE = "trace=read,write,lseek,pread64,pwrite64,readv,writev"
+               "t-read_header-f": {"input": "arch.zck"}, "t-zckdl": {"target": "tgt.zck", "source": "A.zck"}}
+ST_TRACE = "trace=read,write,lseek,pread64,pwrite64,readv,writev,ftruncate"
 ST_RE = None
 
 
@@ -157,13 +159,16 @@ def run_tool(sc, tools, cdir, fault, preload, probe_strace_cls=None):
     which libc entry point the tool uses), 'P' = LD_PRELOAD shim (short counts with real partial transfer, temp files, double faults)."""
     import re
     os.makedirs(cdir, exist_ok=True)
-    for fn in ("out.zck", "arch", "arch.zdict", "stdout.bin", "pl.log", "st.log"):
+    for fn in ("out.zck", "arch", "arch.zdict", "stdout.bin", "pl.log", "st.log", "tgt.zck"):
         try:
             os.unlink(os.path.join(cdir, fn))
         except FileNotFoundError:
             pass
     if sc["kind"] == "t-zck":
         open(os.path.join(cdir, "in.dat"), "wb").write(sc["_D"])
+    elif sc["kind"] == "t-zckdl":
+        open(os.path.join(cdir, "A.zck"), "wb").write(sc["_A"])
+        open(os.path.join(cdir, "tgt.zck"), "wb").write(sc["_T"])
     else:
         open(os.path.join(cdir, "arch.zck"), "wb").write(sc["_B"])
     argv, classes, extra = tool_cmd(sc, tools)
@@ -174,17 +179,17 @@ def run_tool(sc, tools, cdir, fault, preload, probe_strace_cls=None):
         path = os.path.join(os.path.realpath(cdir), CLASS_PATHS[sc["kind"]][st_cls])
         pre = ["strace", "-f", "-o", os.path.join(cdir, "st.log"), "-P", path, "-e", ST_TRACE]
         if fault:
-            sysn = {"read": "read", "write": "write", "lseek": "lseek"}[fault[1]]
+            sysn = {"read": "read", "write": "write", "lseek": "lseek", "ftruncate": "ftruncate"}[fault[1]]
             what = {1: "error=EIO", 2: "error=ENOSPC", 3: "error=EINTR", 5: "retval=0"}[fault[3]]
             pre += ["-e", "inject=%s:%s:when=%d" % (sysn, what, fault[2])]
         argv = pre + argv
     else:
         env.update({"LD_PRELOAD": preload, "ZCKV_CLASSES": classes, "ZCKV_LOG": os.path.join(cdir, "pl.log")})
-        env.update(extra)
         if fault:
             env["ZCKV_FAULT"] = "%s:%s:%d:%d:%d" % tuple(fault[:5])
             if len(fault) > 6 and fault[6]:
                 env["ZCKV_FAULT2"] = "%s:%s:%d:%d:%d" % ((fault[0], fault[1]) + tuple(fault[6]))
+    env.update(extra)
     r = core.run_proc(argv, cdir, env=env, stdout_path=os.path.join(cdir, "stdout.bin"))
     if st_cls:
         evs = []
@@ -194,7 +199,7 @@ def run_tool(sc, tools, cdir, fault, preload, probe_strace_cls=None):
                 m = re.match(r"^\d+\s+(\w+)\(", ln)
                 if not m:
                     continue
-                sy = {"pread64": "read", "readv": "read", "pwrite64": "write", "writev": "write"}.get(m.group(1), m.group(1))
+                sy = {"pread64": "read", "readv": "read", "pwrite64": "write", "writev": "write", "ftruncate64": "ftruncate"}.get(m.group(1), m.group(1))
                 counts[sy] = counts.get(sy, 0) + 1
                 if "(INJECTED)" in ln:
                     evs.append({"ev": "io", "INJECTED": fault[3] if fault else 0, "sys": sy, "cls": st_cls, "via": "strace", "line": ln.strip()[:160]})
@@ -234,6 +239,10 @@ def judge_tool(sc, r, cdir, fault):
         out = rd("arch.zdict")
         if out != sc["_dict"]:
             return ("c12:tool-exit0-but-output-incomplete:" + tag, "unzck --dict exit 0; dictionary %s bytes of %d" % (None if out is None else len(out), len(sc["_dict"])))
+    elif k == "t-zckdl":
+        out = rd("tgt.zck")
+        if out != sc["_B"]:
+            return ("c12:tool-exit0-but-output-incomplete:" + tag, "zckdl exit 0; target %s bytes differs from the served file (%d bytes)" % (None if out is None else len(out), len(sc["_B"])))
     elif k == "t-read_header-f":
         if fault[3] in (1, 3, 5) and fault[0] == "input" and fault[1] == "read":
             return ("c12:tool-exit0-despite-failed-read:" + tag, "zck_read_header -f exit 0 although read #%d failed" % fault[2])
@@ -309,7 +318,7 @@ class C12(core.Check):
     level = "fault_enumeration"
     flavours = ["asan", "plain"]
     rule = ("scenarios: library write (none / zstd / zstd+dict, auto and manual chunking), read, validate-all, validate-data, find-valid, chunk data, copy_chunks, "
-            "update procedure; tools zck (plain, -m -s, -u), unzck, unzck -c, unzck --dict, zck_read_header -f.  Per scenario the fault-free run counts calls per "
+            "update procedure; tools zck (plain, -m -s, -u), unzck, unzck -c, unzck --dict, zck_read_header -f, zckdl -s (against the loopback range server).  Per scenario the fault-free run counts calls per "
             "(descriptor class in {input, output, temp, source, target, stdout} x {read, write, lseek, ftruncate}); EVERY k-th call x every fault kind "
             "{EIO, ENOSPC, EINTR, short with real partial transfer of 0/1/3/5 bytes, read()=0} is executed (exhaustive per scenario). distinct = (scenario, fault)")
     assumptions = ["every byte moves through read/write/lseek/ftruncate on classified descriptors (grep over src/)", "(INJECTED) log lines prove each fault fired",
@@ -321,7 +330,13 @@ class C12(core.Check):
         pl = fl["plain"]
         so = os.path.join(pl.dir, "preload_io.so")
         build._run(["gcc", "-O1", "-g", "-shared", "-fPIC", "-o", so, os.path.join(core.VERIF, "harness", "preload_io.c"), "-ldl"], what="preload_io.so")
-        return {"zh": build.zh(a), "preload": so, "tools": {t: pl.tool(t) for t in ("zck", "unzck", "zck_read_header")}}
+        import rangesrv
+        self.srv = rangesrv.Server(self.work)
+        return {"zh": build.zh(a), "preload": so, "tools": {t: pl.tool(t) for t in ("zck", "unzck", "zck_read_header", "zckdl")}, "www": self.srv.www, "port": self.srv.port}
+
+    def post(self, verdicts, ctx):
+        self.srv.stop()
+        return []
 
     def cases(self, ctx):
         r = core.rng(self.seed, "C12", "gen")
@@ -365,6 +380,11 @@ class C12(core.Check):
             scs.append(dict(base, name="t-unzck-c-c%d" % comp, kind="t-unzck-c"))
             scs.append(dict(base, name="t-unzck-dict-c%d" % comp, kind="t-unzck-dict"))
             scs.append(dict(base, name="t-read_header-f-c%d" % comp, kind="t-read_header-f"))
+            wd = os.path.join(ctx["www"], "c12-c%d" % comp)
+            os.makedirs(wd, exist_ok=True)
+            open(os.path.join(wd, "tgt.zck"), "wb").write(B)
+            scs.append(dict(base, name="t-zckdl-c%d" % comp, kind="t-zckdl", A=core.b64(A), T=core.b64(bytes(T[: len(T) * 2 // 3])),
+                            url="http://127.0.0.1:%d/~maxr=2/c12-c%d/tgt.zck" % (ctx["port"], comp)))
         scs.append({"name": "t-zck-default", "kind": "t-zck", "args": [], "D": core.b64(D)})
         scs.append({"name": "t-zck-split", "kind": "t-zck", "args": ["-m", "-s", "</text:p>"], "D": core.b64(D)})
         if not q:
@@ -382,7 +402,7 @@ class C12(core.Check):
             for (cls, sys_), n in sorted(counts.items()):
                 if sys_ not in ("read", "write", "lseek", "ftrunc", "ftruncate"):
                     continue
-                if sys_.startswith("ftrunc"):
+                if sys_.startswith("ftrunc") and not sc["kind"].startswith("t-"):
                     # the harness's own ftruncate in the update analogue is not library I/O
                     continue
                 ks = list(range(1, n + 1))
@@ -437,7 +457,7 @@ class C12(core.Check):
                 if rs.rc != 0:
                     raise RuntimeError("fault-free strace run %s failed: rc=%s %r" % (sc["name"], rs.rc, rs.stderr[-300:]))
                 for e in rs.events:
-                    if e.get("ev") == "iocount" and e["sys"] in ("read", "write", "lseek"):
+                    if e.get("ev") == "iocount" and e["sys"] in ("read", "write", "lseek", "ftruncate"):
                         key = (cls, e["sys"])
                         if pcounts.get(key, 0) == 0 and e["n"] > 0:
                             bypass.append(key)
